@@ -18,6 +18,10 @@ def centroid(img):
     """
 
     img = np.asarray(img)
+    # weights in double precision: a half or single precision frame would be
+    # summed and normalised in its own type (weights of 1/N below the precision
+    # of float16, sums above 65504 overflowing to inf)
+    img = img.astype(np.result_type(img.dtype, np.float64))
     img = img/np.sum(img)
     nr, nc = img.shape
     rr, cc = np.mgrid[0:nr, 0:nc]
@@ -246,12 +250,16 @@ def rebin(img, factor):
     if np.iscomplexobj(img):
         raise ValueError('rebin is not defined for complex data')
 
+    # block sums of a half or single precision frame are accumulated in double
+    # precision (a float16 sum overflows to inf above 65504)
+    dtype = np.float64 if img.dtype.kind == 'f' else None
+
     if img.ndim == 3:
         img_rebinned = img.reshape(img.shape[0], img.shape[1]//factor, factor,
-                                   img.shape[2]//factor, factor).sum(-1).sum(2)
+                                   img.shape[2]//factor, factor).sum(-1, dtype=dtype).sum(2)
     else:
         img_rebinned = img.reshape(img.shape[0]//factor, factor, img.shape[1]//factor,
-                                   factor).sum(-1).sum(1)
+                                   factor).sum(-1, dtype=dtype).sum(1)
 
     return img_rebinned
 
